@@ -414,6 +414,7 @@ type FuncSpec struct {
 	NoPanic    bool
 	MayPanic   bool
 	Out        []int
+	Ghosts     []Param
 }
 
 type GhostFunc struct {
@@ -464,7 +465,7 @@ type SpecFile struct {
 
 var topKeywords = map[string]bool{"sort": true, "type": true, "alias": true, "world": true, "const": true, "specfunc": true,
 	"ghost": true, "lemma": true, "func": true, "global": true, "axiom": true}
-var subKeywords = map[string]bool{"params": true, "pure": true, "def": true, "defsmt": true, "inline": true, "opaque": true, "trusted": true,
+var subKeywords = map[string]bool{"ghostvar": true, "params": true, "pure": true, "def": true, "defsmt": true, "inline": true, "opaque": true, "trusted": true,
 	"fresh": true, "requires": true, "ensures": true, "modifies": true, "let": true, "loop": true, "use": true, "unfold": true,
 	"induction": true, "call": true, "allow": true, "unreachable": true, "reads": true, "nopanic": true, "maypanic": true, "out": true, "as": true}
 
@@ -647,6 +648,15 @@ func ParseSpecFile(path, src, pkgPath string) (*SpecFile, error) {
 				Allow: map[string]bool{}, File: path, Line: c.line}
 			sf.Funcs = append(sf.Funcs, curF)
 		// ---- sub clauses
+		case "ghostvar":
+			if curF == nil {
+				return nil, errf(c, "ghostvar outside func")
+			}
+			f := strings.Fields(c.rest)
+			if len(f) != 2 {
+				return nil, errf(c, "ghostvar NAME TYPE")
+			}
+			curF.Ghosts = append(curF.Ghosts, Param{f[0], f[1]})
 		case "params":
 			if curF == nil {
 				return nil, errf(c, "params outside func")
@@ -781,9 +791,13 @@ func ParseSpecFile(path, src, pkgPath string) (*SpecFile, error) {
 			if len(f) < 3 {
 				return nil, errf(c, "loop N invariant|use ...")
 			}
-			n, err := strconv.Atoi(f[0])
-			if err != nil {
-				return nil, errf(c, "loop ordinal: %v", err)
+			var ns []int
+			for _, part := range strings.Split(f[0], ",") {
+				n, err := strconv.Atoi(part)
+				if err != nil {
+					return nil, errf(c, "loop ordinal: %v", err)
+				}
+				ns = append(ns, n)
 			}
 			switch f[1] {
 			case "invariant":
@@ -791,7 +805,9 @@ func ParseSpecFile(path, src, pkgPath string) (*SpecFile, error) {
 				if err != nil {
 					return nil, err
 				}
-				curF.LoopInv[n] = append(curF.LoopInv[n], cl)
+				for _, n := range ns {
+					curF.LoopInv[n] = append(curF.LoopInv[n], cl)
+				}
 			case "head", "back", "init", "exit":
 				rest := strings.TrimSpace(f[2])
 				rest = strings.TrimSpace(strings.TrimPrefix(rest, "use"))
@@ -800,7 +816,9 @@ func ParseSpecFile(path, src, pkgPath string) (*SpecFile, error) {
 					return nil, err
 				}
 				cl.Where = f[1]
-				curF.LoopUse[n] = append(curF.LoopUse[n], cl)
+				for _, n := range ns {
+					curF.LoopUse[n] = append(curF.LoopUse[n], cl)
+				}
 			default:
 				return nil, errf(c, "loop: unknown kind %q", f[1])
 			}
